@@ -310,6 +310,23 @@ func init() {
 					prog := []model.Stmt{model.Assign{Name: "z", E: bc.val}, model.If{Conds: []model.Expr{model.Lit{V: model.Bool(true)}}, Bodies: [][]model.Stmt{inner}}, model.Text{S: "|"}, model.Print{E: model.Var{Name: "z"}}}
 					judgeScope(c, prog, nil, "assigned-in-block")
 				}})
+			// one loaded Template, pages rendered one after the other without data: a name assigned by one render is not
+			// visible to (and not typed for) the next
+			secs = append(secs, core.Section{Name: "data-less-renders-of-one-template", Exhaustive: true, N: 3,
+				Run: func(c *core.Ctx, i int) {
+					switch i {
+					case 0:
+						judgeDataLessSequence(c, "c04nil", map[string]string{"a.tw": "{{ n = 1 }}[{{ n }}]", "b.tw": "{{ n = \"two\" }}[{{ n }}]", "c.tw": "[{{ n }}]", "d.tw": "@if(true){{ n = 2.5 }}@end[{{ n }}]"},
+							[]dataLessStep{{"a", "[1]", false}, {"b", "[two]", false}, {"c", "", true}, {"a", "[1]", false}, {"d", "", true}, {"b", "[two]", false}}, "data-less")
+					case 1:
+						judgeDataLessSequence(c, "c04nil", map[string]string{"a.tw": "@each(v in [1, 2]){{ w = v }}@end{{ total = [1] }}{{ total }}", "b.tw": "{{ total = {k: 1} }}{{ total.k }}{{ v = true }}{{ v }}", "c.tw": "{{ w }}", "e.tw": "{{ v }}"},
+							[]dataLessStep{{"a", "1", false}, {"b", "11", false}, {"c", "", true}, {"e", "", true}, {"a", "1", false}}, "data-less")
+					default:
+						judgeDataLessSequence(c, "c04nil", map[string]string{"components/c.tw": "<{{ title }}>", "a.tw": "{{ title = \"About\" }}@component(\"~c\")", "b.tw": "@component(\"~c\", {title: 3})", "c.tw": "@component(\"~c\")",
+							"layouts/l.tw": "{{ seen = 1 }}(@reserve(\"b\")){{ seen }}", "d.tw": "@use(\"~l\")@insert(\"b\"){{ seen = seen + 1 }}{{ inner = \"i\" }}@end", "f.tw": "@use(\"~l\")@insert(\"b\", inner)"},
+							[]dataLessStep{{"a", "<About>", false}, {"b", "<3>", false}, {"c", "", true}, {"d", "()2", false}, {"f", "", true}, {"d", "()2", false}}, "data-less")
+					}
+				}})
 			// blocks inside one another to depth 15..300: each level assigns a name of its own and shadows nothing; the
 			// innermost block sees them all, after each block its name is gone and the outer ones are as they were
 			deepSizes := []int{15, 16, 17, 63, 64, 65, 127, 128, 129, 255, 256, 300}
